@@ -436,6 +436,20 @@ class Case:
             if not t.verify():
                 bad.append('created transaction does not verify after signing')
         raw = t.raw_hex()
+        if not w.multisig and not invalid:
+            # the rate the signed bytes really pay (virtual size from the serialisation itself): the estimate the limits were applied to
+            # may be off by a few bytes per input (signature lengths), not by a multiple
+            total = len(raw) // 2
+            try:
+                base = len(t.raw(witness_type='legacy')) if t.witness_type == 'segwit' else total
+            except Exception:
+                base = total
+            vreal = (3 * base + total + 3) // 4
+            real_rate = t.fee * 1000.0 / vreal
+            if real_rate < 0.9 * self.net.fee_min or real_rate > 1.1 * self.net.fee_max:
+                bad.append('the signed transaction pays %.0f per kB (fee %d on %d virtual bytes), outside [%d, %d]' % (real_rate, t.fee, vreal, self.net.fee_min, self.net.fee_max))
+            elif real_rate < self.net.fee_min:
+                ctx.count('real-rate-within-10%-below-minimum (size estimate)')
         p = run_driver(['tx_parse ' + raw])[0].split(' | ')[0]
         mo = re.search(r' out=\[([^\]]*)\]', p)
         mi = re.search(r' in=\[([^\]]*)\]', p)
